@@ -18,7 +18,7 @@ CLAIMED = {
  "C13": ("inputs never modified: structural snapshots with the same symbolic leaves compared by JSON identity after every public call; container aliasing reported", "6.C13"),
  "C14": ("ignore options: 64 subsets x delivery modes x per-category difference flags; nothing reported in ignored categories, round trip on the rest", "6.C14"),
  "C16": ("terminal rendering never fails; emptiness / non-emptiness / no ANSI without colour", "6.C16"),
- "C17": ("narrow: working-directory restoration and entry filtering/pairing kernel of changed_notebooks over a nondeterministic git stub", "6.C17"),
+ "C17": ("narrow: working-directory restoration (symbolic cwd tokens), entry filtering/pairing kernel of changed_notebooks over a nondeterministic git stub (sub-directory start, path filters, clean filter through the real apply_possible_filter, a second request after the refs moved) and ref-vs-path routing of one to three positional arguments", "6.C17"),
  "C18": ("narrow: configuration kernel of the git integration set-up commands (4 tools x enable/disable/--set-default, config-git) through their real main(); git config replaced by a two-scope key/value model validated against the real git binary on each path's model instance; pre-existing setting values are symbolic strings, so idempotence, 'only nbdime's own entries are written' and 'a default tool naming another program is kept' are decided by z3 for every value", "6.C18"),
  "C19": ("option resolution against an executable model of docs/source/config.rst with symbolic presence/values per (directory, section, option)", "6.C19"),
 }
